@@ -226,6 +226,16 @@ class Interp:
                 return ("none",)
             return tg._union(parts)
         k = st[0]
+        if k == "nt":
+            if t[0] == "class" and t[1].split("::")[1] in st[1]:
+                return ("none",)
+            if t[0] == "leaf" and (t[1] in st[1] or (t[1] == "None" and "NoneType" in st[1])):
+                return ("none",)
+            if t[0] in ("tuple", "tuplefix") and "tuple" in st[1]:
+                return ("none",)
+            if t[0] in BUILTIN_KIND and t[0] in st[1]:
+                return ("none",)
+            return t
         if k == "t":
             names = st[1]
             if t[0] == "class":
@@ -396,14 +406,18 @@ class Interp:
                 else:
                     out |= self.hget(a, ("k", key))
                     out |= self.hget(a, E)
+                shadowed = key is not None and bool(self.hget(a, ("k", key)))
                 for s in self.hget(a, COPYOF):
-                    out |= self.read_key(frozenset([s]), key, fr, keyval)
+                    if not shadowed:
+                        out |= self.read_key(frozenset([s]), key, fr, keyval)
                 if kind == "defaultdict":
                     d = ("obj", a[1][:3] + ("list",), a[2] + ("dd",))
                     self.hadd(a, E, [d])
                     out.add(d)
             elif k == "src":
                 out.add(self.src_ext(a, ("k", key) if key is not None else E))
+                if key is not None:
+                    out |= self.hget(a, ("k", key))
             elif k == "const":
                 if isinstance(a[1], tuple) and isinstance(key, int) and -len(a[1]) <= key < len(a[1]):
                     out.add(("const", a[1][key]))
@@ -595,7 +609,8 @@ class Interp:
                             if self.src_type(n) != ("none",):
                                 out.add(n)
                     else:
-                        out.add(a)
+                        n = self.src_ext(a, ("nt", tuple(names)))
+                        out.add(n)
                 elif a[0] == "der" and kind == "isa" and _scalar_der(a) and not (set(names) & _SCALAR_NAMES):
                     continue
                 elif strict and kind == "isa":
@@ -1189,7 +1204,7 @@ class Interp:
         return frozenset([obj])
 
     def mutate(self, fr, node, target: Value, kind: str):
-        objs = frozenset(a for a in target if a[0] in ("obj", "src"))
+        objs = frozenset(a for a in target if a[0] in ("obj", "src", "class", "module", "func"))
         if not objs:
             return
         key = (id(node), fr.ctx, kind)
@@ -1490,6 +1505,8 @@ class Interp:
                     if self.obj_kind(a) in ("dict", "defaultdict"):
                         self.hadd(a, KEYS, kv)
                     self.hadd(a, ("k", kc) if kc is not _NOCONST else E, v)
+                elif a[0] == "src" and kc is not _NOCONST:
+                    self.hadd(a, ("k", kc), v)
         elif isinstance(t, ast.Starred):
             self.bind_target(fr, t.value, v, st)
         else:
